@@ -628,7 +628,7 @@ def run(chk):
                         names = [ip["names"][f] for f in sorted(miss)][:20]
                         d = chk.replay_dir("cg-not-contained:" + short + str(s))
                         write_replay(d, "program %s, selection %s: functions reachable in the pointer-analysis call graph "
-                                     "(dataflow.CallGraphReachable restricted to realizable edges: closures only once their parent is reached) but "
+                                     "(dataflow.CallGraphReachable restricted to realizable edges: dynamic edges only to callees whose function value a reached function creates) but "
                                      "not reported by reachability.FindReachable: %s\n"
                                      "re-run: build/bin/c18dump -cg -o x.dump %s ; compare the D and R lines" % (pname, SELS[s], names, pname),
                                      [(os.path.join(pname, "main.go"), "main.go")])
@@ -782,9 +782,12 @@ def run(chk):
         "operand fields classified as unable to hold a function constant (Model/ReachGen.v nonfun_names) are checked on every dumped program "
         "(wf_ops): %d programs, %d failures" % (stats["programs"], stats["wf_failures"]),
         "native ground truth covers the functions of the generated main package only (they log their entry); default root selection",
-        "reported >= dataflow.CallGraphReachable is checked on the realizable part of the pointer call graph (an edge to an anonymous function "
-        "is followed only once its enclosing function is reached; the pointer analysis generates constraints for all functions, so raw "
-        "reachability includes e.g. os.chmod$1 via os.ignoringEINTR although os.chmod is unreachable: %d such functions this run) and "
+        "reported >= dataflow.CallGraphReachable is checked on the realizable part of the pointer call graph: a dynamic edge is followed only "
+        "once the callee's function value is created by a reached function (it is a *ssa.Function operand of one of its instructions - "
+        "closures, $bound/$thunk wrappers, stored or passed functions - or a method of a type it converts to an interface); the pointer "
+        "analysis generates constraints for ALL functions, so raw reachability includes e.g. os.chmod$1 via os.ignoringEINTR although "
+        "os.chmod is unreachable, or (*dst.printer).Write via an io.Writer invoke although nothing reached creates a printer: %d such "
+        "functions this run) and "
         % stats.get("cg_unrealizable_excess", 0) +
         "is an alarm for the default root selection; with -nomain/-noinit the pointer analysis still "
         "analyses the whole program, so its dynamic edges may exist only because of the excluded root: the excess (%d functions this run) is "
